@@ -15,6 +15,7 @@ for D in "$V"/seeded/$GLOB; do
   name=$(basename "$D"); P=${name%%-*}
   git -C "$WT" checkout -q -- . ; git -C "$WT" apply "$D/patch.diff" || { echo "$name patch does not apply"; miss=1; continue; }
   own=$(/venv/bin/python -c "import json,sys; m=json.load(open(sys.argv[1])); print(' '.join(m.get('decided_by') or [sys.argv[2]]))" "$D/meta.json" "$P")
+  nc=$(/venv/bin/python -c "import json,sys; print(1 if json.load(open(sys.argv[1])).get('not_claimed') else 0)" "$D/meta.json")
   props="$own"; [ -n "$ALL" ] && props="C01 C02 C03 C04 C05 C06 C07 C08 C09 C10 C11 C12 C13 C14 C15 C16 C17 C18 C19 C20"
   : > "$D/.caught.tmp"
   for prop in $props; do
@@ -22,7 +23,8 @@ for D in "$V"/seeded/$GLOB; do
     subs=$(echo "$out" | grep -o "sub-oracle=[a-z_A-Z0-9]*" | sort -u | sed 's/sub-oracle=//' | tr '\n' ' ')
     echo "$name check=$prop rc=$rc subs: $subs"
     echo "$prop $rc $subs" >> "$D/.caught.tmp"
-    case " $own " in *" $prop "*) [ $rc != 1 ] && miss=1;; esac
+    case " $own " in *" $prop "*) [ $rc != 1 ] && [ "$nc" = 0 ] && miss=1;; esac
+    [ "$nc" = 1 ] && echo "   ($name is recorded as not claimed: see its meta.json)"
   done
   /venv/bin/python - "$D" "${VERIF_SEED:-0}" "${TIER:-quick}" <<'PY'
 import json, sys, os
